@@ -121,6 +121,28 @@ func ltOf(e gen.IExpressionContext) *lt {
 	panic(fmt.Sprintf("unknown legacy parse node %T", e))
 }
 
+// positionDetail: a word position that is (or may be) negative
+func positionDetail(args []*lt) string {
+	for i, a := range args {
+		if i >= 2 {
+			break
+		}
+		switch {
+		case a.K == "neg" && a.A[0].K == "dec":
+			return ":negative-literal-position"
+		case a.K == "neg":
+			return ":computed-negative-position"
+		case a.K == "paren":
+			return ":parenthesized-position"
+		case a.K == "ref":
+			return ":reference-position"
+		case a.K == "str" && strings.HasPrefix(a.S, "-"):
+			return ":negative-text-position"
+		}
+	}
+	return ""
+}
+
 // kind of an operand as far as the expression text tells: used in classes
 func operandKind(t *lt) string {
 	switch t.K {
@@ -172,6 +194,8 @@ func legacyValueClass(expr string) string {
 			cls += ":unit-" + strings.ToLower(t.A[2].S)
 		case (name == "word" && len(t.A) == 3) || (name == "word_slice" && len(t.A) == 4) || (name == "word_count" && len(t.A) == 2):
 			cls += ":by_spaces-" + operandKind(t.A[len(t.A)-1])
+		case (name == "word" || name == "word_slice") && len(t.A) >= 2 && positionDetail(t.A[1:]) != "":
+			cls += positionDetail(t.A[1:])
 		case name == "fixed" && len(t.A) == 2:
 			if t.A[1].K == "neg" {
 				cls += ":negative-places"
@@ -179,18 +203,18 @@ func legacyValueClass(expr string) string {
 		}
 		return cls
 	case "bin":
-		a, b := operandKind(t.A[0]), operandKind(t.A[1])
-		// the operand that decides what happens: e.g. date arithmetic with a TIME(...) call
-		detail := a + "," + b
-		for _, x := range t.A {
+		// the kinds of the operands; a call is named (e.g. date arithmetic with a TIME(...) call)
+		kindOf := func(x *lt) string {
 			y := x
 			for y.K == "paren" {
 				y = y.A[0]
 			}
 			if y.K == "call" {
-				detail = strings.Replace(detail, "call", "call:"+strings.ToLower(y.S), 1)
+				return "call:" + strings.ToLower(y.S)
 			}
+			return operandKind(x)
 		}
+		detail := kindOf(t.A[0]) + "," + kindOf(t.A[1])
 		switch t.S {
 		case "<", "<=", ">", ">=":
 			return "legacy-value:ordering:" + detail
@@ -219,6 +243,8 @@ type legacyTestEntry struct {
 	Output    string        `json:"output"`
 	Errors    []string      `json:"errors"`
 }
+
+func timePtr(t time.Time) *time.Time { return &t }
 
 func toX(val any) types.XValue {
 	switch v := val.(type) {
@@ -491,6 +517,17 @@ var extraLegacyTests = []legacyTestEntry{
 	{Template: `@(DATEDIF("1/6/2001", "15/8/2002", "D"))`, Output: "440"},
 	{Template: `@(EDATE("31-1-2020", 1))`, Output: "29-02-2020"},
 	{Template: `@(WORD("abc-def  ghi  jkl", 3, 1 = 1))`, Output: "jkl"},
+	// second hunt wave: a missing word is empty text in legacy (legacy_tests.json: WORD("hello World", 3) and FIRST_WORD("  ") are
+	// empty, no error), so the concatenation still has a value
+	{Template: `@(WORD("a b", 6) & "!")`, Output: "!"},
+	{Template: `@(FIRST_WORD("  ") & "x")`, Output: "x"},
+	// word positions that are negative only when the expression is evaluated count from the end (legacy WORD(t, -1) is the last word)
+	{Template: `@(WORD("bee cat dog", -(1)))`, Output: "dog"},
+	{Template: `@(WORD("bee cat dog", contact.pos))`, Output: "dog", Context: legacyTestCtx{Variables: map[string]any{"contact": map[string]any{"pos": json.Number("-1")}}}},
+	{Template: `@(WORD_SLICE(" abc  def ghi-jkl ", 2, -1))`, Output: "def ghi"},
+	{Template: `@(WORD_SLICE(" abc  def ghi-jkl ", -1, 0))`, Output: "jkl"},
+	// the seconds of a time added to a datetime
+	{Template: `@(NOW() + TIME(0, 0, 30))`, Output: "2014-10-03T09:41:42.000000Z", Context: legacyTestCtx{Now: timePtr(time.Date(2014, 10, 3, 9, 41, 12, 0, time.UTC))}},
 	{Template: `@(contact.joined < date.now)`, Output: "TRUE", Context: legacyTestCtx{Variables: map[string]any{"contact": map[string]any{"joined": "01-12-2014 09:00"}}}},
 }
 
